@@ -92,7 +92,18 @@ FORMAT_VERDICT = {"a@b.co": True, "not-an-email": False, "https://example.com/x"
                   "http://example.com/x": True, "https://example.com/a/very/long/path": True, "https://a.io": True}
 
 # how the member under test is reached from the top-level request type
-PLACEMENTS = ["direct", "direct_required", "in_member", "in_optional_member", "in_array_items", "in_boxed_recursive", "two_levels", "outer_first"]
+PLACEMENTS = ["direct", "direct_required", "in_member", "in_optional_member", "in_array_items", "in_boxed_recursive", "two_levels", "outer_first",
+              "twin_loose_first", "twin_loose_last"]
+CONSTRAINT_KEYS = ("minLength", "maxLength", "minimum", "maximum", "exclusiveMinimum", "exclusiveMaximum", "pattern", "minItems", "maxItems", "format")
+KW_MEMBER_NAMES = ["title", "description", "example", "examples", "default", "plain"]
+
+
+def loosened(msch):
+    """the member schema without its constraints (items of arrays too)"""
+    out = {k: v for k, v in msch.items() if k not in CONSTRAINT_KEYS or (k == "format" and v in ("int32", "int64"))}
+    if isinstance(out.get("items"), dict):
+        out["items"] = loosened(out["items"])
+    return out
 
 
 def build_spec(msch, placement):
@@ -130,6 +141,14 @@ def build_spec(msch, placement):
         schemas["Umid"] = {"type": "object", "properties": {"leaf": {"$ref": "#/components/schemas/Vleaf"}}}
         schemas["Top"] = {"type": "object", "properties": {"mid": {"$ref": "#/components/schemas/Umid"}}}
         path = ["mid", "leaf", "m"]
+    elif placement in ("twin_loose_first", "twin_loose_last"):
+        # the same inline object twice, the other copy without the constraints; the member is named like a schema
+        # annotation keyword: the two inline types must not be merged (each site enforces its own constraints)
+        mname = KW_MEMBER_NAMES[sum(map(ord, json.dumps(msch, sort_keys=True))) % len(KW_MEMBER_NAMES)]
+        twin = lambda m: {"type": "object", "properties": {mname: m, "pad": {"type": "string"}}}
+        schemas["Aloose" if placement == "twin_loose_first" else "Zloose"] = {"type": "object", "properties": {"inner": twin(loosened(msch))}}
+        schemas["Top"] = {"type": "object", "properties": {"inner": twin(msch)}}
+        path = ["inner", mname]
     spec = {"openapi": "3.1.0", "info": {"title": "t", "version": "1"}, "paths": {}, "components": {"schemas": schemas}}
     return spec, path
 
@@ -152,7 +171,7 @@ def main(tier, seed, replay=None):
     mem = members()
     cases = []
     for (key, msch, vals) in mem:
-        pls = PLACEMENTS if tier != "quick" else ["direct", "direct_required", "outer_first"] + rng.sample(PLACEMENTS[2:7], 2)
+        pls = PLACEMENTS if tier != "quick" else ["direct", "direct_required", "outer_first"] + rng.sample(PLACEMENTS[2:7], 2) + [rng.choice(PLACEMENTS[8:])]
         for pl in pls:
             cases.append({"member": key, "schema": msch, "values": vals, "placement": pl})
     if replay:
@@ -247,15 +266,17 @@ def main(tier, seed, replay=None):
                         continue
                     n_complete += 1
                     viol.append((c, f"{c['member']}@{c['placement']}: validate() rejects {json.dumps(v)} which satisfies {json.dumps(c['schema'])}", classify_incomplete(c, v)))
+    # ---- an operation-level parameter overrides the path-item one, constraints included
+    n_override = override_part(d, viol)
     # ---- the client validates before sending
     n_methods, bad_methods = client_validates(d)
     res.oblige(f"client: the generated client ({n_methods} methods) could be read back", n_methods > 0, "; ".join(bad_methods[:1]) if n_methods == 0 else "")
     for b in (bad_methods if n_methods > 0 else []):
         viol.append(({"client_spec": "lib/c16.py client_validates", "method": b.split(":")[0]}, f"generated client method does not refuse an invalid request before building it: {b}", None))
     res.counts.update({"evaluations": len(cases), "distinct_nontrivial": len(ar.cases), "comparisons": n_probe, "probes": n_probe,
-                       "unsound_observations": n_sound, "incomplete_observations": n_complete, "traces_validated_against_impl": len(ar.cases),
+                       "parameter_override_comparisons": n_override, "unsound_observations": n_sound, "incomplete_observations": n_complete, "traces_validated_against_impl": len(ar.cases),
                        "exhaustive": tier != "quick",
-                       "rule": "constraint combinations (string lengths incl. multi-byte at the limits, integer ranges for int32 / int64 / unformatted with inclusive, exclusive, single-point, whole-range and out-of-range bounds, float ranges, patterns, array lengths, item constraints, email / uri) x placements (direct, required, in a member, in an optional member, in array items, in a boxed recursive member, two levels down; all in the thorough tier) x boundary values (bound-1, bound, bound+1, type limits); compiled validate() verdict vs a JSON Schema oracle restricted to the listed keywords, both directions; plus the syntactic check that client methods validate first"})
+                       "rule": "constraint combinations (string lengths incl. multi-byte at the limits, integer ranges for int32 / int64 / unformatted with inclusive, exclusive, single-point, whole-range and out-of-range bounds, float ranges, patterns, array lengths, item constraints, email / uri) x placements (direct, required, in a member, in an optional member, in array items, in a boxed recursive member, two levels down, next to an unconstrained twin of the same inline object whose member is named like an annotation keyword; all in the thorough tier) x boundary values (bound-1, bound, bound+1, type limits); compiled validate() verdict vs a JSON Schema oracle restricted to the listed keywords, both directions; plus: an operation-level parameter that overrides a looser path-item parameter yields the same request struct as the operation-level declaration alone (path / query / header); plus the syntactic check that client methods validate first"})
     for c in cases[:4]:
         res.sample({"member": c["member"], "placement": c["placement"], "values": len(c["values"])})
     res.cov["trusted_base"] = vlib.COMMON_TRUSTED + [
@@ -281,6 +302,56 @@ def main(tier, seed, replay=None):
         res.violation("proof obligation no longer checks: " + "; ".join(o[0] for o in broken),
                       {"broken": [[o[0], o[2]] for o in broken]}, no_input=True)
     return res.finish()
+
+
+def override_part(d, viol):
+    """an operation-level parameter replaces the path-item parameter of the same name and location: the request type of
+    the overriding operation carries exactly the validation it carries when only the operation-level one is declared"""
+    mem = [(k, m) for (k, m, _) in members() if any(c in m for c in CONSTRAINT_KEYS) and m.get("type") in ("string", "integer", "number")]
+    jobs = []
+    for loc in ("path", "query", "header"):
+        for (key, msch) in mem[::3] if loc != "query" else mem:
+            if loc == "path" and msch.get("type") != "string" and "format" not in msch:
+                pass
+            jobs.append((loc, key, msch))
+
+    def spec_of(loc, msch, with_item):
+        name = "code" if loc != "header" else "X-Code"
+        p = lambda sch: {"name": name, "in": loc, "required": loc == "path", "schema": sch}
+        other = {"name": "keep", "in": "query", "schema": {"type": "string", "maxLength": 9}}
+        item = {"get": {"operationId": "purge_items", "parameters": [p(msch)], "responses": {"204": {"description": "n"}}},
+                "delete": {"operationId": "wipe_all", "responses": {"204": {"description": "n"}}}}
+        item["parameters"] = ([p(loosened(msch))] if with_item else [p(msch)] if False else []) + [other]
+        if not with_item and loc == "path":
+            item["delete"]["parameters"] = [p({"type": msch.get("type", "string")})]
+        return {"openapi": "3.1.0", "info": {"title": "t", "version": "1"}, "paths": {"/items/{code}" if loc == "path" else "/items": item}, "components": {"schemas": {}}}
+
+    def one(j):
+        loc, key, msch = j
+        texts = []
+        for with_item in (True, False):
+            base = os.path.join(d, f"ov_{loc}_{key}_{int(with_item)}")
+            os.makedirs(base, exist_ok=True)
+            sp = os.path.join(base, "spec.json")
+            json.dump(spec_of(loc, msch, with_item), open(sp, "w"))
+            outp = os.path.join(base, "out.rs")
+            rc, txt = vlib.oas(["generate", "types", "-i", sp, "-o", outp, "-q"], timeout=120)
+            texts.append((rc, open(outp).read() if rc == 0 and os.path.exists(outp) else txt[-200:]))
+        return texts
+    n = 0
+    for (loc, key, msch), texts in zip(jobs, vlib.pmap(one, jobs)):
+        if texts[0][0] != 0 or texts[1][0] != 0:
+            viol.append(({"override": [loc, key]}, f"parameter override {loc}/{key}: generation failed: {texts[0][1] if texts[0][0] else texts[1][1]}", None))
+            continue
+        group = {"path": "Path", "query": "Query", "header": "Header"}[loc]
+        pick = lambda t: re.search(r"(?s)((?:#\[[^\n]*\n|///[^\n]*\n)*)pub struct PurgeItemsRequest" + group + r" \{(.*?)\n\}", t)
+        a, b = pick(texts[0][1]), pick(texts[1][1])
+        n += 1
+        strip = lambda m: re.sub(r"(?m)^\s*///.*\n", "", m.group(2)) if m else None
+        if a is None or b is None or strip(a) != strip(b):
+            viol.append(({"override": [loc, key], "schema": msch, "spec": spec_of(loc, msch, True)},
+                         f"parameter override {loc}/{key}: the {group.lower()} struct of the overriding operation differs from the one generated when only the operation declares the parameter {json.dumps(msch)}: {(strip(a) or 'missing').strip()[:200]!r} vs {(strip(b) or 'missing').strip()[:200]!r}", None))
+    return n
 
 
 def client_validates(d):
